@@ -14,3 +14,69 @@ TASK_STUBS = {
     f"{TM}::TaskManager.cancel_pending_task": {"event": "cancel_pending_task", "returns": FUTURE, "note": "A7"},
     f"{TM}::TaskManager.is_pending_task_active": {"event": "is_pending_task_active", "returns": BOOL, "note": "A7"},
 }
+
+
+# ---------------------------------------------------------------------------------------------------------------------
+# Models of the Rust extension `ipv8_rust_tunnels` (assumption A3).  Written in the interpretable subset: the verifier runs
+# these instead of the extension; the replay harness uses the real extension.
+
+class RustPublicKeyModel:
+    """PublicKey(bin): accepts or rejects `bin`; key_to_bin() == bin; signature length is a positive function of the key;
+    verify is a function Sig(bin, msg, signature) (and may raise instead of returning False)."""
+
+    def __init__(self, keystring):
+        if not uf_bool("valid_public_key", keystring):
+            raise ValueError
+        self.bin = keystring
+
+    def key_to_bin(self):
+        return self.bin
+
+    def get_signature_length(self):
+        n = uf_int("siglen", self.bin)
+        assume(n > 0)
+        return n
+
+    def verify(self, signature, msg):
+        if nondet_bool():
+            raise ValueError
+        return uf_bool("Sig", self.bin, msg, signature)
+
+    def key_to_pem(self):
+        return uf_bytes("key_to_pem", self.bin)
+
+    def curve_name(self):
+        return uf_str("curve_name", self.bin)
+
+    def get_crypt_pk(self):
+        return uf_bytes("crypt_pk", self.bin)
+
+
+class RustPrivateKeyModel:
+    """PrivateKey: pub_bin is a function of the secret; sign(secret, msg) verifies under pub_bin (A3)."""
+
+    def __init__(self, secret):
+        self.secret = secret
+
+    def pub_bin(self):
+        b = uf_bytes("pub_of", self.secret)
+        assume(uf_bool("valid_public_key", b))
+        return b
+
+    def key_to_bin(self):
+        return self.secret
+
+    def pub(self):
+        return RustPublicKeyModel(self.pub_bin())
+
+    def signature(self, msg):
+        s = uf_bytes("sign", self.secret, msg)
+        assume(uf_bool("Sig", uf_bytes("pub_of", self.secret), msg, s))
+        assume(len(s) == uf_int("siglen", uf_bytes("pub_of", self.secret)))
+        return s
+
+
+RUST_MODELS = {
+    "ipv8_rust_tunnels.PublicKey": "contracts.common.RustPublicKeyModel",
+    "ipv8_rust_tunnels.PrivateKey": "contracts.common.RustPrivateKeyModel",
+}
